@@ -45,7 +45,7 @@ Qed.
 Definition with_work (r old : region) : region :=
   if r_reason old =? 1
   then mkRegion (r_id r) (r_start r) (r_end r) (r_ver r) (r_conf r) (r_peers r)
-         (Nat.modulo (S (r_work old)) (length (r_peers r))) (r_expired r) (r_reason r) (r_reload r) (r_pending r) (r_ready r)
+         (Nat.modulo (S (r_work old)) (length (r_peers r))) (r_expired r) (r_reason r) (r_reload r) (r_pending r) (r_ready r) (r_sepochs r)
   else r.
 Definition inherit (r : region) (deleted : list region) : region :=
   match deleted with old :: _ => with_work r old | [] => r end.
@@ -65,7 +65,7 @@ Lemma insert_region_unfold c r :
        if stale then (false, c)
        else let r1 := inherit r deleted in
             let acc := fold_left rm_step deleted (c_regions c, c_latest c) in
-            (true, mkCache (ins_sorted r1 l1) (reg_set (r_verid r1) (r_start r1) (fst acc)) (lat_set (r_id r1) (r_ver r1, r_conf r1) (snd acc))).
+            (true, mkCache (ins_sorted r1 l1) (reg_set (r_verid r1) (r_start r1) (fst acc)) (lat_set (r_id r1) (r_ver r1, r_conf r1) (snd acc)) (c_sepochs c)).
 Proof.
   unfold insert_region. destruct (stale_by_latest c r); [reflexivity|].
   destruct (remove_intersecting r (c_sorted c)) as [[l1 deleted] stale]. destruct stale; [reflexivity|].
@@ -157,7 +157,7 @@ Qed.
 (* over any sequence of insertions: while the id is never dropped from latestVersions, its version only grows *)
 Fixpoint held (id : N) (c : cache) (rs : list region) : Prop :=
   lat_get id (c_latest c) <> None /\
-  match rs with [] => True | r :: t => held id (snd (insert_region c r)) t end.
+  match rs with [] => True | r :: t => held id (snd (insert_new c r)) t end.
 
 Lemma insert_all_latest_mono : forall rs c id v cf v' cf',
   held id c rs ->
@@ -166,7 +166,7 @@ Proof.
   induction rs as [|r t IH]; intros c id v cf v' cf' Hh H1 H2.
   - cbn in H2. rewrite H1 in H2. injection H2 as <- <-. lia.
   - cbn [insert_all fold_left] in H2. destruct Hh as [_ Hh]. cbn [held] in Hh.
-    destruct (insert_region c r) as [ok c1] eqn:Ei. cbn [snd] in *.
+    unfold insert_new in *. destruct (insert_region c (stamp (c_sepochs c) r)) as [ok c1] eqn:Ei. cbn [snd] in *.
     destruct (lat_get id (c_latest c1)) as [[v1 cf1]|] eqn:E1.
     + pose proof (insert_latest_mono _ _ _ _ _ _ _ _ _ Ei H1 E1) as [Ha Hb].
       destruct (IH c1 id v1 cf1 v' cf' Hh E1 H2) as [Hc Hd]. lia.
@@ -224,5 +224,5 @@ Qed.
 Lemma insert_all_sorted : forall rs c, sorted_starts (c_sorted c) -> sorted_starts (c_sorted (insert_all c rs)).
 Proof.
   induction rs as [|r t IH]; intros c Hs; [exact Hs|]. cbn [insert_all fold_left]. apply IH.
-  destruct (insert_region c r) as [ok c1] eqn:E. cbn [snd]. eapply insert_region_sorted; eassumption.
+  unfold insert_new. destruct (insert_region c (stamp (c_sepochs c) r)) as [ok c1] eqn:E. cbn [snd]. eapply insert_region_sorted; eassumption.
 Qed.
